@@ -92,6 +92,8 @@ var c20Odd = []string{
 	"a:ID-before-ID", "a:ID-after-ID", "b:ID-then-a:ID-after-ID", "b:ID-then-a:ID-before-ID",
 	"a:Destination-before-Destination", "a:InResponseTo-before-InResponseTo", "a:Version-before-Version",
 	"b:Destination-then-a:Destination-after-Destination",
+	// only qualified ones, the (optional) SAML attribute itself is not there
+	"b:InResponseTo-then-a:InResponseTo-without-InResponseTo", "a:InResponseTo-then-b:InResponseTo-without-InResponseTo",
 }
 
 func c20ApplyOdd(root *etree.Element, odd string) {
@@ -118,7 +120,12 @@ func c20ApplyOdd(root *etree.Element, odd string) {
 	var out []etree.Attr
 	out = append(out, decl...)
 	before := strings.Contains(odd, "-before-")
+	without := strings.Contains(odd, "-without-")
 	for _, a := range root.Attr {
+		if without && a.Space == "" && a.Key == target {
+			out = append(out, q...)
+			continue
+		}
 		if a.Space == "" && a.Key == target && before {
 			out = append(out, q...)
 		}
@@ -523,7 +530,7 @@ func c20Replay(raw json.RawMessage) ([]string, string) {
 }
 
 func c20Run(r *mc.Run) {
-	r.Rule = "every document of C08's layout space (same generator and bounds) + attacker-shaped documents with an unsigned root: every combination of <=2 (quick) / <=3 (thorough) of 46 shadowing/layout shapes (namespace-prefixed and duplicated root attributes before/after the real one, two Issuers in either order, foreign-namespace / nested Issuer first, comments/CDATA/character references/whitespace/child element in Issuer, character references and raw TAB/LF/CR in an attribute value, prolog variants, quote style, attribute order, BOM, default namespace, prefix rebinding, an EncryptedAssertion whose plaintext is another Issuer before/after the Issuer or at the end, declarations of unused namespace prefixes named like the decoded attributes) x raw/DEFLATE x IdP issuer configured or not, for SSO Responses and LogoutResponses with signed and unsigned roots (shapes applied after signing); 8 arrangements of attributes in foreign namespaces named like the decoded ones, written by the IdP before it signs (signed and unsigned roots, both kinds, raw/DEFLATE); the encoded string followed by 7 kinds of trailing bytes; compressed presentations hand-framed in stored blocks whose stream starts with a tab or space byte and ends in a line feed; differential oracle; plus a genuine signed message of each kind pre-decoded and validated right after each of 7 deliveries whose decoding fails; non-trivial = full validation accepted, so the two decoders were compared; distinct = distinct case"
+	r.Rule = "every document of C08's layout space (same generator and bounds) + attacker-shaped documents with an unsigned root: every combination of <=2 (quick) / <=3 (thorough) of 46 shadowing/layout shapes (namespace-prefixed and duplicated root attributes before/after the real one, two Issuers in either order, foreign-namespace / nested Issuer first, comments/CDATA/character references/whitespace/child element in Issuer, character references and raw TAB/LF/CR in an attribute value, prolog variants, quote style, attribute order, BOM, default namespace, prefix rebinding, an EncryptedAssertion whose plaintext is another Issuer before/after the Issuer or at the end, declarations of unused namespace prefixes named like the decoded attributes) x raw/DEFLATE x IdP issuer configured or not, for SSO Responses and LogoutResponses with signed and unsigned roots (shapes applied after signing); 10 arrangements of attributes in foreign namespaces named like the decoded ones, written by the IdP before it signs (signed and unsigned roots, both kinds, raw/DEFLATE); the encoded string followed by 7 kinds of trailing bytes; compressed presentations hand-framed in stored blocks whose stream starts with a tab or space byte and ends in a line feed; differential oracle; plus a genuine signed message of each kind pre-decoded and validated right after each of 7 deliveries whose decoding fails; non-trivial = full validation accepted, so the two decoders were compared; distinct = distinct case"
 	var cases []c20Case
 	for _, g := range c08Cases(r) {
 		g := g
